@@ -166,6 +166,14 @@ Theorem C02_cache_event_keeps : forall eps, 0 < eps -> forall c e,
 Proof. exact cache_event_keeps. Qed.
 Print Assumptions C02_cache_event_keeps.
 
+(* a bind in flight keeps its reservation: updatePod ignores an update whose object has no
+   nodeName for a pod the cache holds in an allocated status *)
+Theorem C02_update_unbound_keeps_reservation : forall eps c tid st,
+  c_heap c !! tid = Some st -> allocated_status (t_status st) = true ->
+  cache_event eps c (EvUpdateUnbound tid) = c.
+Proof. exact update_unbound_keeps_reservation. Qed.
+Print Assumptions C02_update_unbound_keeps_reservation.
+
 Theorem C02_bind_events_safe : forall eps, 0 < eps -> forall l c k,
   cinv eps c -> ops_ok eps c l -> cinv eps (ops_state eps c (take k l)).
 Proof. exact bind_events_safe. Qed.
